@@ -150,7 +150,7 @@ func boundedJoinOne(p *run.Part, cfg *seqx.Config, cc c16Case) {
 	// under a strict ordering the model fixes the answer as well
 	un := ref.ML[cc.Dst].Clone()
 	ref.M.Join(un, ref.ML[cc.Src])
-	if cfg.HashTie || !ref.M.HasTie(un.Set) {
+	if cfg.SortFor == nil && !cfg.FirstWins && (cfg.HashTie || !ref.M.HasTie(un.Set)) {
 		ms := ref.M.JoinN(ref.ML[cc.Dst], ref.ML[cc.Src], cc.N, cfg.HashTie)
 		var mw []string
 		for _, u := range ref.M.Lin(ms, cfg.HashTie) {
@@ -264,7 +264,7 @@ func c16Searches(p *run.Part, tier string) []*seqx.Search {
 	// bounded merge 0<-1 truncates away replica 0's own chain (leaving its reverse index behind), a second one
 	// from the stale replica 2 brings dropped entries back
 	Prefixes["+stale6"] = append(append(append(chain(0, 2), seqx.Op{K: "join", A: 2, B: 0}), seqx.Op{K: "app", A: 0}), chain(1, 6)...)
-	return []*seqx.Search{mk(CfgDef3, "", depth), mk(CfgHash3, "", depth), mk(CfgShared3, "", depth-1), mk(CfgDef3, "+tri4", 1), mk(CfgDef3, "+stale6", 1)}
+	return []*seqx.Search{mk(CfgDef3, "", depth), mk(CfgHash3, "", depth), mk(CfgShared3, "", depth-1), mk(CfgDef3, "+tri4", 1), mk(CfgDef3, "+stale6", 1), mk(CfgMixSort, "", depth), mk(CfgFww3, "", depth-1)}
 }
 
 func init() {
